@@ -54,6 +54,13 @@ def run(ck):
     for cfg in ("MetaResync_R.cfg", "MetaResync_R2.cfg", "MetaResync_T.cfg"):
         ck.tlc_model("MetaResync", cfg, timeout=3000)
     ck.setcov("exhaustive", True)
+    if thorough:
+        # anti-vacuity of the listed exclusion classes: without them the model itself must show order dependence
+        for cfg in ("MetaResync_R_strict.cfg", "MetaResync_R2_strict.cfg"):
+            r = ck.tlc("MetaResync", cfg, timeout=3000, count=False)
+            if r.kind != "invariant":
+                raise vkit.Infra("the strict order-independence formula was expected to fail on %s (listed finding classes are vacuous?): %s" % (cfg, r.summary()))
+            ck.add("model_counterexamples_for_listed_classes", 1)
     binp = ck.gobuild("meta")
     cats = json.load(open(mu.CATALOGS))
     rnd = random.Random(ck.seed)
